@@ -6,6 +6,7 @@ by the tiny writers below from abstract statement lists."""
 from __future__ import annotations
 
 import json
+import random as _global_random
 import warnings
 from xml.sax.saxutils import escape, quoteattr
 
@@ -42,7 +43,9 @@ CONSTS = {
 TAGP = 10
 PREDS = (3, 4)
 LITERALS = (5, 6, 7)
-LABELS = ["b1", "x", "N0123456789abcdef0123456789abcdef", "n0123456789abcdef0123456789abcdefb1", "genid"]
+LABELS = ["b1", "x", "N0123456789abcdef0123456789abcdef", "n0123456789abcdef0123456789abcdefb1", "genid",
+          "1", "2"]   # all-digit labels are legal in every syntax but RDF/XML (written "_1" there)
+DIGIT_LABELS = (5, 6)
 LABEL_IDX = {s: i for i, s in enumerate(LABELS)}
 NLAB = 16
 GRAPHS = {1: URIRef("urn:g:1"), 2: URIRef("urn:g:2"), 3: URIRef("urn:g:3")}
@@ -150,35 +153,82 @@ def _ttl_term(n):
     return _nt_term(n)
 
 
-def _ttl_block(stmts, variant):
+def anon_plan(stmts, anon):
+    """The labels (indexes) of [anon] that this document can write as an anonymous node
+    [ p o ; ... ]: never a graph name, all occurrences in one graph, object of at most one statement
+    (not of its own), no nesting of anonymous nodes."""
+    cand = {-lab - 1 for lab in anon}
+    ok = []
+    for lab in anon:
+        n = -lab - 1
+        subj = [st for st in stmts if st[0] == n]
+        objs = [st for st in stmts if st[2] == n]
+        if not subj or len(objs) > 1 or any(st[3] == n for st in stmts):
+            continue
+        if any(st[3] != subj[0][3] for st in subj + objs):
+            continue
+        if any(st[2] in cand for st in subj) or any(st[0] in cand for st in objs):
+            continue
+        if lab not in ok:
+            ok.append(lab)
+    return ok
+
+
+def _ttl_items(stmts, anon):
+    """Statements as (graph, subject key, subject text, predicate text, object text); a label of
+    anon_plan is written as a blank node property list at the place of the statement that has it
+    as object (or, when there is none, as a statement of its own)."""
+    plan = anon_plan(stmts, anon) if anon else []
+    inner = {-lab - 1: [st for st in stmts if st[0] == -lab - 1] for lab in plan}
+
+    def bracket(n):
+        return "[ " + " ; ".join(f"{_ttl_term(p)} {_ttl_term(o)}" for _, p, o, _ in inner[n]) + " ]"
+
+    items, done = [], set()
+    for s, p, o, g in stmts:
+        if s in inner:
+            if not any(st[2] == s for st in stmts) and s not in done:
+                done.add(s)
+                items.append((g, ("anon", s), bracket(s), None, None))
+            continue
+        items.append((g, s, _ttl_term(s), _ttl_term(p), bracket(o) if o in inner else _ttl_term(o)))
+    return items
+
+
+def _ttl_block(items, variant):
     """Turtle statements; consecutive statements with the same subject are joined with ';'
     when variant is odd."""
     out, i = [], 0
-    while i < len(stmts):
-        s = stmts[i][0]
+    while i < len(items):
+        key = items[i][1]
         k = i + 1
+        if items[i][3] is None:
+            out.append(f"{items[i][2]} .\n")
+            i = k
+            continue
         if variant & 1:
-            while k < len(stmts) and stmts[k][0] == s:
+            while k < len(items) and items[k][1] == key and items[k][3] is not None:
                 k += 1
-        body = " ;\n    ".join(f"{_ttl_term(p)} {_ttl_term(o)}" for _, p, o, _ in stmts[i:k])
-        out.append(f"{_ttl_term(s)} {body} .\n")
+        body = " ;\n    ".join(f"{pt} {ot}" for _, _, _, pt, ot in items[i:k])
+        out.append(f"{items[i][2]} {body} .\n")
         i = k
     return "".join(out)
 
 
-def write_turtle(stmts, variant=0):
-    return "@prefix e: <http://e/> .\n" + _ttl_block(stmts, variant)
+def write_turtle(stmts, variant=0, anon=()):
+    return "@prefix e: <http://e/> .\n" + _ttl_block(_ttl_items(stmts, anon), variant)
 
 
-def write_trig(stmts, variant=0):
+def write_trig(stmts, variant=0, anon=()):
     """Graph blocks follow the statement order: the same graph may be opened several times."""
+    items = _ttl_items(stmts, anon)
     out, i = ["@prefix e: <http://e/> .\n"], 0
-    while i < len(stmts):
-        g = stmts[i][3]
+    while i < len(items):
+        g = items[i][0]
         k = i + 1
-        while k < len(stmts) and stmts[k][3] == g:
+        while k < len(items) and items[k][0] == g:
             k += 1
-        body = _ttl_block(stmts[i:k], variant)
+        body = _ttl_block(items[i:k], variant)
         if g == 0 and not variant & 2:
             out.append(body)
         elif g == 0:
@@ -190,32 +240,52 @@ def write_trig(stmts, variant=0):
     return "".join(out)
 
 
-def _xml_prop(p, o):
+def _xml_lab(n):
+    """rdf:nodeID must be an NCName: an all-digit label gets an underscore in front"""
+    s = _lab(n)
+    return "_" + s if s[0].isdigit() else s
+
+
+XML_BASES = ["http://a.example/x/", "http://b.example/", "http://a.example/y/z"]
+
+
+def _xml_prop(p, o, base=""):
     q = "e:" + str(const_term(p))[len("http://e/"):]
     if o < 0:
-        return f'<{q} rdf:nodeID={quoteattr(_lab(o))}/>'
+        return f'<{q}{base} rdf:nodeID={quoteattr(_xml_lab(o))}/>'
     t = const_term(o)
     if isinstance(t, URIRef):
-        return f'<{q} rdf:resource={quoteattr(str(t))}/>'
+        return f'<{q}{base} rdf:resource={quoteattr(str(t))}/>'
     if t.language:
-        return f'<{q} xml:lang={quoteattr(t.language)}>{escape(str(t))}</{q}>'
+        return f'<{q}{base} xml:lang={quoteattr(t.language)}>{escape(str(t))}</{q}>'
     if t.datatype is not None:
-        return f'<{q} rdf:datatype={quoteattr(str(t.datatype))}>{escape(str(t))}</{q}>'
-    return f"<{q}>{escape(str(t))}</{q}>"
+        return f'<{q}{base} rdf:datatype={quoteattr(str(t.datatype))}>{escape(str(t))}</{q}>'
+    return f"<{q}{base}>{escape(str(t))}</{q}>"
 
 
 def write_xml(stmts, variant=0):
+    """variant & 1: statements with the same subject share one node element; & 2: node elements carry
+    their own xml:base (a different one from element to element); & 4: property elements too.
+    Every IRI of the suite is absolute, so the bases change nothing in the graph described."""
     out = ['<?xml version="1.0" encoding="utf-8"?>\n<rdf:RDF xmlns:rdf="http://www.w3.org/1999/02/22-rdf-syntax-ns#" '
-           'xmlns:e="http://e/">\n']
-    i = 0
+           'xmlns:e="http://e/"' + (' xml:base="http://base.example/doc"' if variant & 6 else "") + '>\n']
+    i, n = 0, 0
+
+    def base(flag):
+        nonlocal n
+        if not variant & flag:
+            return ""
+        n += 1
+        return f" xml:base={quoteattr(XML_BASES[n % len(XML_BASES)])}"
+
     while i < len(stmts):
         s = stmts[i][0]
         k = i + 1
         if variant & 1:
             while k < len(stmts) and stmts[k][0] == s:
                 k += 1
-        subj = f"rdf:nodeID={quoteattr(_lab(s))}" if s < 0 else f"rdf:about={quoteattr(str(const_term(s)))}"
-        out.append(f"<rdf:Description {subj}>" + "".join(_xml_prop(p, o) for _, p, o, _ in stmts[i:k])
+        subj = f"rdf:nodeID={quoteattr(_xml_lab(s))}" if s < 0 else f"rdf:about={quoteattr(str(const_term(s)))}"
+        out.append(f"<rdf:Description{base(2)} {subj}>" + "".join(_xml_prop(p, o, base(4)) for _, p, o, _ in stmts[i:k])
                    + "</rdf:Description>\n")
         i = k
     out.append("</rdf:RDF>\n")
@@ -322,7 +392,9 @@ WRITERS = {"nt": write_nt, "nquads": write_nquads, "turtle": write_turtle, "trig
            "trix": write_trix, "json-ld": write_jsonld, "hext": write_hext}
 
 
-def write_doc(fmt, stmts, variant=0):
+def write_doc(fmt, stmts, variant=0, anon=()):
+    if fmt in ("turtle", "trig"):
+        return WRITERS[fmt](stmts, variant, anon)
     return WRITERS[fmt](stmts, variant)
 
 
@@ -372,6 +444,18 @@ def snapshot(store, plain_id=None, tags=None):
 
 
 def run_docs(case, hook=None):
+    """case["reseed"] = k: the program calls random.seed(k) before every parse call (what a
+    reproducible-experiment script does at the top of each iteration); the property holds whatever
+    the program does between two parse calls."""
+    state = _global_random.getstate()
+    try:
+        return _run_docs(case, hook)
+    finally:
+        _global_random.setstate(state)
+
+
+def _run_docs(case, hook=None):
+    reseed = case.get("reseed")
     store = Memory()
     ds = Dataset(store=store)
     plain = Graph() if case.get("plain") else None
@@ -390,9 +474,11 @@ def run_docs(case, hook=None):
     obs = []
     tags = {}
     for j, d in enumerate(case["docs"]):
-        text = write_doc(d["fmt"], d["stmts"], d.get("variant", 0))
+        text = write_doc(d["fmt"], d["stmts"], d.get("variant", 0), d.get("anon", ()))
         tgt = d["target"]
         try:
+            if reseed is not None:
+                _global_random.seed(reseed)
             if tgt == 0:
                 ds.parse(data=text, format=d["fmt"])
             elif tgt == PLAIN:
@@ -483,7 +569,8 @@ class C12(Suite):
     thorough_n = 20000
     timeout_s = 20.0
 
-    # case = {"plain": bool, "init": [[s,p,o,g]...], "docs": [{"fmt", "target", "variant", "stmts": [[s,p,o,g]...]}]}
+    # case = {"plain": bool, "init": [[s,p,o,g]...], "reseed": k (optional),
+    #         "docs": [{"fmt", "target", "variant", "anon": [labels written as [...]] (optional), "stmts": [[s,p,o,g]...]}]}
     def gen(self, rng, i):
         plain = rng.random() < 0.2
         r = rng.random()
@@ -496,6 +583,10 @@ class C12(Suite):
         else:
             fmts = list(FORMATS)
         labs = rng.sample(range(len(LABELS)), rng.choice([1, 2, 2, 3]))
+        numeric = rng.random() < 0.12   # all-digit labels next to anonymous nodes, Turtle family
+        if numeric:
+            labs = [5, 6][: rng.choice([1, 2, 2])] + rng.sample(range(5), rng.choice([1, 2]))
+            fmts = ["turtle", "trig", "trig", rng.choice(fmts)]
         subj_c, obj_c = [1, 2, 8], [1, 2, 5, 6, 7, 8]
         named = [1, 2, 3] + [100 + lab for lab in labs[:1]]
         init = []
@@ -539,8 +630,17 @@ class C12(Suite):
             stmts = list(body)
             for lab in doc_labels(body):
                 stmts.insert(rng.randrange(len(stmts) + 1), [-lab - 1, TAGP, tag_id(j, lab), rng.choice(graphs)])
-            docs.append({"fmt": fmt, "target": target, "variant": rng.randrange(8), "stmts": stmts})
-        return {"plain": plain, "init": init, "docs": docs}
+            doc = {"fmt": fmt, "target": target, "variant": rng.randrange(8), "stmts": stmts}
+            if fmt in ("turtle", "trig") and (numeric or rng.random() < 0.3):
+                cand = [lab for lab in doc_labels(stmts) if numeric and lab not in DIGIT_LABELS or rng.random() < 0.5]
+                plan = anon_plan(stmts, cand)
+                if plan:
+                    doc["anon"] = plan
+            docs.append(doc)
+        case = {"plain": plain, "init": init, "docs": docs}
+        if rng.random() < 0.25:
+            case["reseed"] = rng.choice([0, 1, 20240101])
+        return case
 
     def run_impl(self, case):
         return run_docs(case)
@@ -591,6 +691,16 @@ class C12(Suite):
                 f["multi_graph_doc"] = f.get("multi_graph_doc", 0) + 1
         if len({d["fmt"] for d in case["docs"]}) > 1:
             f["mixed_syntaxes"] = 1
+        if case.get("reseed") is not None:
+            f["random_reseeded_before_each_call"] = 1
+        for d in case["docs"]:
+            labs = doc_labels(d["stmts"])
+            if d.get("anon"):
+                f["doc_with_anonymous_nodes"] = f.get("doc_with_anonymous_nodes", 0) + 1
+                if any(lab in DIGIT_LABELS for lab in labs):
+                    f["digit_label_next_to_anonymous_node"] = f.get("digit_label_next_to_anonymous_node", 0) + 1
+            if d["fmt"] == "xml" and d.get("variant", 0) & 6 and labs:
+                f["xml_inner_base_with_nodeID"] = f.get("xml_inner_base_with_nodeID", 0) + 1
         return f
 
     def shrink(self, case):
@@ -607,6 +717,11 @@ class C12(Suite):
                     yield retag(dict(case, docs=docs[:i] + [nd] + docs[i + 1:]))
             if d.get("variant"):
                 yield dict(case, docs=docs[:i] + [dict(d, variant=0)] + docs[i + 1:])
+            if d.get("anon"):
+                nd = {k: v for k, v in d.items() if k != "anon"}
+                yield dict(case, docs=docs[:i] + [nd] + docs[i + 1:])
+        if case.get("reseed") is not None:
+            yield {k: v for k, v in case.items() if k != "reseed"}
 
     def sweep(self):
         """every ordered pair of syntaxes x two targets x with/without an existing node whose id is the label:
